@@ -4,7 +4,7 @@
     [rsum f n] = f 0 + ... + f (n-1); [dlt] = Kronecker delta; [ment M i j] = entry (i,j) of a list-of-rows matrix.
     All statements are over the reals, for every dimension. *)
 From Coq Require Import Reals List.
-From LP Require Import Num NumR C15_Model C15_Proofs C15_Proofs_QR C15_Proofs_Scale C15_Proofs_Iter C15_Proofs_Session C15_Proofs_Inv C15_Proofs_Diag C15_Proofs_Stop.
+From LP Require Import Num NumR C15_Model C15_Proofs C15_Proofs_QR C15_Proofs_Scale C15_Proofs_Iter C15_Proofs_Session C15_Proofs_Inv C15_Proofs_Diag C15_Proofs_Stop C15_Proofs_Gap.
 Import ListNotations.
 Local Open Scope R_scope.
 
@@ -458,3 +458,64 @@ Theorem C15_diagonal_entry_is_eigenvalue_example :
   ~ exists lam, forall r, (r < 3)%nat -> rsum (fun c => a r c * coord_vec 0 c) 3 = lam * coord_vec 0 r.
 Proof. exact diagonal_entry_is_eigenvalue_example. Qed.
 Print Assumptions C15_diagonal_entry_is_eigenvalue_example.
+
+(** ** "for each eigenvalue a unit vector v and value lambda with M v = lambda v" — the shift selects the eigenvalue that was asked for.
+    [graded l]: l is a spectrum of the quantifier in the order of decreasing magnitude (neighbouring ratios |b| / |a| in 0.1 .. 0.8, either sign);
+    sizes up to 7.  Premise carried, not proved: |M|^2 = sum of the squared eigenvalues (Frobenius norm of a symmetric matrix).
+    Then the shift lambda_i + 1e-8 |M| of Find_Eigenvector_Rayleigh is at least 100 times nearer to lambda_i than to any other eigenvalue ... *)
+Theorem C15_rayleigh_shift_selects_requested_eigenvalue (m : list (list R)) l i j : graded l -> (length l <= 7)%nat ->
+  mnorm ROps m * mnorm ROps m = sumsq l ->
+  (i < length l)%nat -> (j < length l)%nat -> i <> j ->
+  nth i l 0 <> rayleigh_shift m (nth i l 0) /\
+  100 * Rabs (nth i l 0 - rayleigh_shift m (nth i l 0)) <= Rabs (nth j l 0 - rayleigh_shift m (nth i l 0)).
+Proof. exact (rayleigh_shift_selects m l i j). Qed.
+Print Assumptions C15_rayleigh_shift_selects_requested_eigenvalue.
+
+(** ... so the factor 1 / (lambda_j - shift) by which the inverse scales the eigenvector of any OTHER eigenvalue (C15_inverse_scales_eigenvectors) is at
+    most 1/100 of the factor for the eigenvalue asked for: the inverse iteration is drawn to the requested eigenpair, on every spectrum of the quantifier *)
+Theorem C15_rayleigh_amplification_ratio (m : list (list R)) l i j : graded l -> (length l <= 7)%nat ->
+  mnorm ROps m * mnorm ROps m = sumsq l ->
+  (i < length l)%nat -> (j < length l)%nat -> i <> j ->
+  let s := rayleigh_shift m (nth i l 0) in
+  nth j l 0 <> s /\ Rabs (/ (nth j l 0 - s)) <= / 100 * Rabs (/ (nth i l 0 - s)).
+Proof. exact (rayleigh_amplification_ratio m l i j). Qed.
+Print Assumptions C15_rayleigh_amplification_ratio.
+
+(** the general form: an offset c |M| keeps the shift K times nearer to lambda_i whenever c (K + 1) <= 1.2e-6 (K = 1: c <= 6e-7) *)
+Theorem C15_shift_offset_selects l c K nrm i j : graded l -> (length l <= 7)%nat -> 0 <= nrm -> nrm * nrm = sumsq l ->
+  0 < c -> 0 <= K -> c * (K + 1) <= 12 / 10000000 ->
+  (i < length l)%nat -> (j < length l)%nat -> i <> j ->
+  let shift := nth i l 0 + c * nrm in
+  0 < Rabs (nth i l 0 - shift) /\ K * Rabs (nth i l 0 - shift) <= Rabs (nth j l 0 - shift).
+Proof. exact (shift_selects l c K nrm i j). Qed.
+Print Assumptions C15_shift_offset_selects.
+
+(** and a bound of this size is needed: 1, 1e-1, .., 1e-5, 8e-6 is a spectrum of the quantifier (size 7) for which the offset 1.5e-6 |M| puts the
+    shift for the smallest eigenvalue nearer to its neighbour 1e-5 (the corner of the ratio box the generator's 'corner' cases aim at) *)
+Theorem C15_shift_offset_bound_is_needed :
+  graded close_tail_spectrum /\ length close_tail_spectrum = 7%nat /\
+  forall nrm, 0 <= nrm -> nrm * nrm = sumsq close_tail_spectrum ->
+    let shift := nth 6 close_tail_spectrum 0 + 15 / 10000000 * nrm in
+    Rabs (nth 5 close_tail_spectrum 0 - shift) < Rabs (nth 6 close_tail_spectrum 0 - shift).
+Proof. exact (conj (proj1 close_tail_graded) (conj (proj2 close_tail_graded) larger_offset_selects_neighbour)). Qed.
+Print Assumptions C15_shift_offset_bound_is_needed.
+
+(** non-vacuity: diag(1, 1/10, 8/100) meets the hypotheses of C15_rayleigh_shift_selects_requested_eigenvalue *)
+Theorem C15_shift_selects_example :
+  let m := [[1; 0; 0]; [0; 1 / 10; 0]; [0; 0; 8 / 100]] in let l := [1; 1 / 10; 8 / 100] in
+  graded l /\ (length l <= 7)%nat /\ mnorm ROps m * mnorm ROps m = sumsq l.
+Proof. exact shift_selects_example. Qed.
+Print Assumptions C15_shift_selects_example.
+
+(** the premise on the norm is a theorem for the diagonal matrices of the quantifier: Matrix::Norm of diag(d) squared is the sum of the squared entries
+    of d (every length), so the statement holds for them with hypotheses on the spectrum only *)
+Theorem C15_norm_of_diagonal (d : list R) : mnorm ROps (diagm d) * mnorm ROps (diagm d) = sumsq d.
+Proof. exact (mnorm_sq_diagm d). Qed.
+Print Assumptions C15_norm_of_diagonal.
+
+Theorem C15_rayleigh_shift_selects_on_diagonal (d : list R) i j : graded d -> (length d <= 7)%nat ->
+  (i < length d)%nat -> (j < length d)%nat -> i <> j ->
+  nth i d 0 <> rayleigh_shift (diagm d) (nth i d 0) /\
+  100 * Rabs (nth i d 0 - rayleigh_shift (diagm d) (nth i d 0)) <= Rabs (nth j d 0 - rayleigh_shift (diagm d) (nth i d 0)).
+Proof. exact (rayleigh_shift_selects_diagonal d i j). Qed.
+Print Assumptions C15_rayleigh_shift_selects_on_diagonal.
